@@ -257,7 +257,7 @@ def main():
         text, _ = generate(pkg)
     except (Refuse, SyntaxError, OSError) as r:
         refused = str(r)
-        text = HEADER + FALLBACK % refused[:120].replace("*", "x").replace("(", "[").replace(")", "]")
+        text = HEADER + FALLBACK % refused[:120].replace("*", "x").replace("(", "[").replace(")", "]").replace('"', "'")
     try:
         old = open(out_path).read()
     except FileNotFoundError:
